@@ -67,6 +67,14 @@ def pool():
                             ("h2_sto3g.mkl", "molden", False), ("nh3_molden_cart.molden", "wfn", True), ("water_hfs_321g.fchk", "molekel", True),
                             ("water.xyz", "pdb", False), ("water.xyz", "sdf", False), ("atom_om2.cp2k.out", "wfx", True)):
         specs.append({"op": "convert", "file": src, "dst": dst, "allow": allow})
+    # lazily consumed trajectories: two load_many iterators advanced in turn (their contexts close out of order), a conversion
+    # of a lazily loaded trajectory that fails while the iterator is suspended, an iterator abandoned after one frame
+    specs += [
+        {"op": "lazy", "what": "interleaved", "files": ["water_trajectory.xyz", "water_trajectory_no_model.pdb"]},
+        {"op": "lazy", "what": "interleaved", "files": ["example.sdf", "caffeine.mol2"]},
+        {"op": "lazy", "what": "dump-fails", "files": ["water_trajectory.xyz"]},
+        {"op": "lazy", "what": "abandoned", "files": ["water_trajectory.xyz"]},
+    ]
     specs += [
         {"op": "fail", "what": "load-unknown-extension"}, {"op": "fail", "what": "dump-missing-attr"},
         {"op": "fail", "what": "load-garbage-xyz"}, {"op": "fail", "what": "dump-atnum-zero-xyz"},
@@ -127,6 +135,25 @@ def execute(spec, workdir):
                 path = os.path.join(workdir, go.filename(spec["dst"], "conv"))
                 iodata.dump_one(data, path, allow_changes=spec["allow"])
                 return _file_digest(path) + "|" + _digest_obj(iodata.load_one(path))
+            if op == "lazy":
+                paths = [os.path.join(bootstrap.DATA_DIR, f) for f in spec["files"]]
+                if spec["what"] == "interleaved":
+                    its = [iodata.load_many(p) for p in paths]
+                    digests = []
+                    for pair in zip(*its):  # zip stops at the shorter one: the other iterator is left suspended, then collected
+                        digests += [snap.digest(f) for f in pair]
+                    del its
+                    return "OBJ:" + hashlib.sha256("".join(digests).encode()).hexdigest() + f":{len(digests)}"
+                if spec["what"] == "dump-fails":
+                    try:
+                        iodata.dump_many(iodata.load_many(paths[0]), os.path.join(workdir, "no_such_dir", "out.xyz"))
+                    except OSError as exc:
+                        return f"EXC:{type(exc).__name__}"
+                    return "RETURNED"
+                it = iodata.load_many(paths[0])
+                first = snap.digest(next(it))
+                del it
+                return "OBJ:" + first
             if op == "fail":
                 what = spec["what"]
                 if what == "load-unknown-extension":
@@ -361,7 +388,7 @@ def run_case(case):
     root = tempfile.mkdtemp(prefix="vf_c16_")
     viols, feats = [], []
     counters = {"baseline_subprocesses": 0, "calls_in_history": 0, "digest_comparisons": 0, "table_snapshots": 0, "thread_calls": 0,
-                "line_events": 0, "yields": 0, "context_switches": 0, "distinct_yield_points": 0}
+                "line_events": 0, "yields": 0, "context_switches": 0, "distinct_yield_points": 0, "observed_warnings_machinery_replaced": 0}
     try:
         base = baseline(chosen, root)
         counters["baseline_subprocesses"] = len(base)
@@ -374,6 +401,7 @@ def run_case(case):
                 order = [chosen[i] for i in rng.permutation(len(chosen))]
                 seq += order
             t0 = tables.tables_snapshot()
+            tables.warnings_machinery_replaced()
             counters["table_snapshots"] += 1
             for pos, sid in enumerate(seq):
                 dg = execute(specs[sid], os.path.join(root, f"h{pos}"))
@@ -395,6 +423,7 @@ def run_case(case):
             results = {}
             errors = []
             t0 = tables.tables_snapshot()
+            tables.warnings_machinery_replaced()
 
             def worker(tid):
                 try:
@@ -430,6 +459,8 @@ def run_case(case):
                 viols.append(_v(f"module-table-modified:{dd[0][0].split('[')[0]}", f"module table changed during the threaded run: {dd[0]}"))
             if inj.context_switches < 2:
                 return {"status": "inconclusive", "reason": "fewer than 2 context switches observed"}
+        # observation only (not part of the statement): is the warnings machinery still the original one?
+        counters["observed_warnings_machinery_replaced"] = int(tables.warnings_machinery_replaced(repair=True))
     finally:
         shutil.rmtree(root, ignore_errors=True)
     bykey = {}
